@@ -431,9 +431,32 @@ def run_prio(ctx: Ctx) -> RuleResult:
                     'priorities: priorities set by the callback escape the inversion / neutralisation', construct='prio:edit-order')
     # the prioritizer is enabled when any priority is set
     pi = repo.func('lark.parsers.earley:Parser.__init__')
-    ok = has_pat(pi.body_nodes(), '$r.options.priority is not None') and (has_pat(pi.body_nodes(), 'if $t.priority:\n    self.forest_sum_visitor = ForestSumVisitor\n    break')
-                                                                             or has_pat(pi.body_nodes(), 'if any($t.priority for $t in $$terms):\n    $me.forest_sum_visitor = ForestSumVisitor')) \
-        and has_pat(pi.body_nodes(), "self.lexer_conf.lexer_type != 'basic'")
+    # (by path conditions: the two assignments enabling the pass run under "some rule has a priority" and under "the lexer is not
+    #  the basic one and some terminal has a priority" -- however the tests are nested, merged or written as search loops)
+    from ..exprs import path_conditions, find_pat as _fp
+    enabling = _fp(pi.body_nodes(), '$me.forest_sum_visitor = ForestSumVisitor')
+
+    def _conjuncts(st_):
+        out_ = []
+        for t_, pol_ in path_conditions(st_):
+            if pol_ and isinstance(t_, ast.BoolOp) and isinstance(t_.op, ast.And):
+                out_ += [(v_, True) for v_ in t_.values]
+            else:
+                out_.append((t_, pol_))
+        return out_
+    rule_arm = term_arm = False
+    for a_, _b in enabling:
+        cj = _conjuncts(a_)
+        texts = [norm(t_) for t_, pol_ in cj if pol_]
+        loops_ = [l_ for l_ in ancestors(a_) if isinstance(l_, ast.For)]
+        if any('.options.priority is not None' in t_ for t_ in texts) or any('.options.priority is not None' in t_ and 'any(' in t_ for t_ in texts):
+            rule_arm = True
+        has_term = any(t_.endswith('.priority') and not t_.endswith('options.priority') for t_ in texts) or \
+            any(has_pat([ast.parse(t_, mode='eval').body], 'any(($t.priority for $t in $$terms))') for t_ in texts)
+        not_basic = any("lexer_type != 'basic'" in t_ for t_ in texts)
+        if has_term and not_basic:
+            term_arm = True
+    ok = rule_arm and term_arm
     res.ob('%s %s' % (pi.loc(), pi.qual), 'the priority pass is enabled by any rule priority, or (dynamic lexers) any terminal priority', ok)
     if not ok:
         res.finding(pi, pi.node, 'the conditions enabling the priority pass changed', construct='prio:enable')
